@@ -100,13 +100,54 @@ def gen_graph(rng: vlib.Rng, shape: str, n: int) -> dict[int, list[int]]:
 
 
 TYPES = ["int", "str", "bytes", "float", "list[int]", "dict[str, int]", "tuple[int, str]"]
+NUM_SHARDS = 16
+
+
+def shard_of(cache_name: str) -> int:
+    """mypy.util.hash_path_stem(name) % SQLITE_NUM_SHARDS, transcribed (checked against the shards the shim logs)."""
+    i = len(cache_name) - 1
+    end = i
+    while i >= 0:
+        c = cache_name[i]
+        if c in "/\\":
+            break
+        if c == ".":
+            end = i
+        i -= 1
+    hv = 123
+    for j in range(end, -1, -1):
+        hv = (hv * 33) ^ ord(cache_name[j])
+    hv = (hv ^ (hv >> 32)) & 0xFFFFFFFF
+    hv ^= hv >> 16
+    hv = (hv * 0x85EBCA6B) & 0xFFFFFFFF
+    hv ^= hv >> 13
+    hv = (hv * 0xC2B2AE35) & 0xFFFFFFFF
+    hv ^= hv >> 16
+    return hv % NUM_SHARDS
+
+
+def colliding_name(base: str, pkg: str, shards: set[int]) -> str:
+    """A module name whose cache files land in one of the given sqlite shards."""
+    k = 0
+    while True:
+        nm = f"{base}" if k == 0 else f"{base}q{k}"
+        if shard_of((pkg + "/" if pkg else "") + nm + ".meta.ff") in shards:
+            return nm
+        k += 1
+
+
+OPTION_LINES = ["implicit_optional = True", "strict_optional = False", "disallow_untyped_defs = True", "ignore_errors = True",
+                "disallow_untyped_defs = True\nimplicit_optional = True"]
+INLINE_LINES = ["# mypy: implicit-optional", "# mypy: disallow-untyped-defs", "# mypy: no-strict-optional", "# mypy: ignore-errors"]
 
 
 def gen_module(rng: vlib.Rng, name: str, dep_names: list[str], in_cycle: set[str], variant: int,
-               stdlib: list[str]) -> str:
+               stdlib: list[str], inline: str = "") -> str:
     """Source of one module.  `variant` changes the public interface (edit step)."""
     i = name.replace(".", "_")
     L = ["from __future__ import annotations"]
+    if inline:
+        L.insert(0, inline)
     for s in stdlib:
         L.append(f"import {s}")
     for d in dep_names:
@@ -178,6 +219,12 @@ def gen_module(rng: vlib.Rng, name: str, dep_names: list[str], in_cycle: set[str
                   "functools": "p_%s: int = functools.partial(int)"}[s] % i)
     if rng.random() < 0.15:
         L.append(f"undefined_name_{i}")
+    # code whose diagnostics depend on per-module options (config sections / inline comments)
+    L.append(f"def opt_{i}(a: int = None, b: str = None) -> int:")
+    L.append(f"    return a")
+    L.append(f"def untyped_{i}(a, b):")
+    L.append(f"    return a")
+    L.append(f"so_{i}: int = None")
     return "\n".join(L) + "\n"
 
 
@@ -224,9 +271,13 @@ def gen_program(seed: int, k: int) -> Program:
     n = rng.randint(10, 30) if k >= 2 else rng.randint(10, 14)
     deps = gen_graph(rng, shape, n)
     use_pkg = rng.random() < 0.35
+    collide = k % 2 == 1           # all user modules in two sqlite shards: lock conflicts between workers become likely
+    tgt = set(rng.sample(range(NUM_SHARDS), 2))
     names = []
     for i in range(n):
-        names.append(f"pk.m{i}" if use_pkg and i % 4 == 1 else f"m{i}")
+        pkg = "pk" if use_pkg and i % 4 == 1 else ""
+        base = colliding_name(f"m{i}", pkg, tgt) if collide else f"m{i}"
+        names.append(f"pk.{base}" if pkg else base)
     comps = sccs_of(n, deps)
     comp_of = {v: frozenset(c) for c in comps for v in c}
     stdlib_all = rng.sample(STDLIB, rng.choice([0, 1, 2, 3])) if k % 3 != 0 else []
@@ -234,21 +285,31 @@ def gen_program(seed: int, k: int) -> Program:
     edits: dict[str, str] = {}
     # modules whose interface changes in version 1: one or two "low" modules + one random one
     changed = {0, rng.randrange(n)} | ({rng.randrange(n // 2)} if rng.random() < 0.5 else set())
+    ini = ["[mypy]", "local_partial_types = True"]
     for i in range(n):
         dn = [names[j] for j in deps[i]]
         cyc = {names[j] for j in deps[i] if comp_of[j] == comp_of[i]}
         sl = [s for s in stdlib_all if rng.random() < 0.3]
         path = names[i].replace(".", "/") + ".py"
+        in_scc = len(comp_of[i]) > 1
+        # per-module options: more often on members of import cycles (multi-module batches in the workers)
+        r = rng.random()
+        inline = ""
+        if r < (0.5 if in_scc else 0.25):
+            ini += [f"[mypy-{names[i]}]"] + rng.choice(OPTION_LINES).split("\n")
+        elif r < (0.7 if in_scc else 0.4):
+            inline = rng.choice(INLINE_LINES)
         st = rng.getstate()
-        files[path] = gen_module(rng, names[i], dn, cyc, 0, sl)
+        files[path] = gen_module(rng, names[i], dn, cyc, 0, sl, inline)
         if i in changed:
             rng.setstate(st)
-            edits[path] = gen_module(rng, names[i], dn, cyc, 1, sl)
+            edits[path] = gen_module(rng, names[i], dn, cyc, 1, sl, inline)
             if edits[path] == files[path]:
                 edits[path] += f"extra_{i}: int = 'changed'\n"
     if use_pkg:
         files["pk/__init__.py"] = "pk_version: int = 1\n"
     srcs = sorted(files)
+    files["mypy.ini"] = "\n".join(ini) + "\n"
     rng.shuffle(srcs)
     if rng.random() < 0.4:      # sometimes only give the roots (modules nobody imports) on the command line
         imported = {names[j] for i in range(n) for j in deps[i]}
@@ -283,17 +344,22 @@ def write_tree(root: str, files: dict[str, str], bump: float = 0.0) -> None:
 
 
 def run_mypy(root: str, srcs: list[str], n: int, cache: str, *, sched: str | None = None,
-             trace: str | None = None, extra: list[str] | None = None, timeout: float = RUN_TIMEOUT) -> Res:
+             trace: str | None = None, extra: list[str] | None = None, timeout: float = RUN_TIMEOUT,
+             knobs: dict[str, str] | None = None) -> Res:
     """One mypy process (group).  n == 0: sequential with the same parser settings the parallel mode forces."""
     env = vlib.py_env()
     env["PYTHONPATH"] = SHIM + os.pathsep + vlib.REPO
     env.pop("C07_TRACE", None)
     env.pop("C07_SEED", None)
     env.pop("MYPY_NUM_WORKERS", None)
+    for kk in ("C07_LONG_SLEEP", "C07_SQLITE_BUSY_MS"):
+        env.pop(kk, None)
     if trace is not None:
         env["C07_TRACE"] = trace
         env["C07_SEED"] = sched or ""
-    cmd = [vlib.PY, "-m", "mypy", "--native-parser"] + BASE_FLAGS + ["--cache-dir", cache]
+        env.update(knobs or {})
+    cfg = ["--config-file", "mypy.ini"] if os.path.exists(os.path.join(root, "mypy.ini")) else ["--config-file", os.devnull]
+    cmd = [vlib.PY, "-m", "mypy", "--native-parser"] + cfg + BASE_FLAGS + ["--cache-dir", cache]
     cmd += ["-n", str(n)] if n else []
     cmd += (extra or []) + srcs
     t0 = time.time()
@@ -435,6 +501,7 @@ class Case:
     sched: str
     mode: str            # "cold" (empty cache) | "semi" (typeshed + prelude already cached sequentially)
     key: str = ""
+    knobs: dict[str, str] = field(default_factory=dict)   # long pause / sqlite busy timeout (shim)
 
 
 def load_trace(path: str) -> list[dict[str, Any]]:
@@ -551,7 +618,7 @@ def run_case(pr: ProgRunner, case: Case) -> dict[str, Any]:
         if v == 1:
             write_tree(root, prog.edits, bump=5.0)
         tr = os.path.join(tdir, f"{sub}-v{v}.jsonl")
-        r = run_mypy(root, prog.srcs, case.n, cache, sched=f"{case.sched}/{v}", trace=tr)
+        r = run_mypy(root, prog.srcs, case.n, cache, sched=f"{case.sched}/{v}", trace=tr, knobs=case.knobs)
         runs += 1
         check(f"par-v{v}", r, pr.ref[v])
         if "C07-SHIM-INSTALL-FAILED" in r.err:
@@ -576,6 +643,13 @@ def plan_cases(ctx: vlib.Ctx, progs: list[Program], per_prog: int) -> list[Case]
             mode = "cold" if j == 0 else "semi"
             c = Case(p, ns[j], f"s{ctx.seed}-{pi}-{j}-{rng.randrange(10**6)}", mode)
             c.key = f"{p.name}/n{c.n}/{c.sched}/{mode}"
+            # lock-conflict probe: pause > sqlite busy timeout before a later module of a multi-module batch.
+            # Usually a 3 s pause with the busy timeout shortened to 1.5 s; in the thorough tier every 5th case uses the
+            # real default timeout (5 s) with a 6 s pause.
+            if not ctx.quick and j % 5 == 4:
+                c.knobs = {"C07_LONG_SLEEP": "6.0"}
+            elif c.n >= 2:
+                c.knobs = {"C07_LONG_SLEEP": "3.0", "C07_SQLITE_BUSY_MS": "1500"}
             cases.append(c)
     return cases
 
@@ -665,8 +739,25 @@ def convert_trace(events: list[dict[str, Any]]) -> tuple[str | None, list[str], 
     commit_at: dict[int, tuple[int, dict[str, str]]] = {}
     recv_at: dict[int, int] = {}
     submit_at: dict[int, int] = {}
+    open_impl: dict[int, tuple[int, list[str], bool]] = {}     # worker -> (event index, modules, committed?)
+
+    def close_impl(w: int, at: int) -> None:
+        o = open_impl.pop(w, None)
+        if o is not None and not o[2]:
+            probs.append(f"event {at}: worker {w} finished the implementation phase of {o[1]} (started at event {o[0]}) "
+                         f"without a per-module store commit before going on (cache-shard write lock kept)")
+
     for i, e in enumerate(events):
         k = e["ev"]
+        if k == "impl_start":
+            close_impl(e["w"], i)
+            open_impl[e["w"]] = (i, e["mods"], False)
+        elif k == "commit_module":
+            if e["w"] in open_impl:
+                o = open_impl[e["w"]]
+                open_impl[e["w"]] = (o[0], o[1], True)
+        elif k == "commit" and e["kind"] == "impl":
+            close_impl(e["w"], i)
         if k == "classify":
             fresh += e["fresh"]
             mev.append({"c": "EClassify", "o1": e["ready"], "o2": [], "i": i})
@@ -776,6 +867,18 @@ def stage_C(ctx: vlib.Ctx, traces: list[dict[str, Any]]) -> None:
                   + (f" at model event #{arg} {at['c']} = real event {json.dumps(real)}" if at else f" ({arg})"),
                   {"case": t["case"], "v": t["v"], "code": code, "arg": arg})
     ctx.add("traces_validated_against_impl", good)
+    n_long = n_cm = 0
+    writers: dict[tuple[str, int, int], set[int]] = {}
+    for t in traces:
+        for e in t["events"]:
+            if e["ev"] == "impl_start" and e.get("sleep", 0) >= 1.0:
+                n_long += 1
+            elif e["ev"] == "commit_module":
+                n_cm += 1
+                writers.setdefault((t["case"], t["v"], e["shard"]), set()).add(e["w"])
+    ctx.cov["C_per_module_commit_events"] = n_cm
+    ctx.cov["C_long_pauses_injected"] = n_long
+    ctx.cov["C_shards_written_by_2plus_workers"] = sum(1 for ws in writers.values() if len(ws) >= 2)
     ctx.cov["C_traces"] = len(exprs)
     ctx.cov["C_model_events_replayed"] = n_events
     ctx.cov["C_event_kinds"] = kinds
